@@ -36,8 +36,20 @@ def column_names(table: dict, use_pid=False):
     return names
 
 
-def write_source(kind: str, table: dict, tmp: Path, row_group_size=None):
-    """returns (source object or path, kind) for Catalog.from_dataframe/from_file"""
+FILE_LAYOUTS = {
+    # documented alternatives for handing over the same file: other accepted suffixes, a table
+    # in another FITS extension (reader option hdu), HDF5 datasets inside a group
+    "fits": [None, None, {"suffix": ".cat"}, {"hdu": 2}],
+    "hdf5": [None, None, {"suffix": ".h5"}, {"suffix": ".hdf"}, {"group": "data/set1"}],
+    "parquet": [None, None, {"suffix": ".pq"}, {"suffix": ".pqt"}, {"suffix": ".parq"}],
+}
+
+
+def write_source(kind: str, table: dict, tmp: Path, row_group_size=None, layout=None):
+    """returns the source object or path for Catalog.from_dataframe/from_file.  With a
+    ``layout`` (see FILE_LAYOUTS) returns (path, extra reader kwargs, prefix for column names)."""
+    if layout is not None:
+        return _write_layout(kind, table, tmp, row_group_size, layout)
     cols = table_columns(table)
     if kind == "dataframe":
         import pandas as pd
@@ -72,6 +84,41 @@ def write_source(kind: str, table: dict, tmp: Path, row_group_size=None):
         path = tmp / "input.parquet"
         parquet.write_table(pa.table(cols), path, row_group_size=row_group_size or max(1, len(cols["ra"])))
         return path
+    raise ValueError(kind)
+
+
+def _write_layout(kind, table, tmp, row_group_size, layout):
+    cols = table_columns(table)
+    suffix = layout.get("suffix")
+    if kind == "fits":
+        from astropy.io import fits
+        from astropy.table import Table
+
+        cols = {k: (v.astype(np.int16) if v.dtype == np.int8 else v) for k, v in cols.items()}
+        path = tmp / ("input" + (suffix or ".fits"))
+        hdus = [fits.PrimaryHDU()]
+        if layout.get("hdu") == 2:
+            # a first table extension with other content and another length
+            hdus.append(fits.table_to_hdu(Table({k: np.zeros(3, dtype=v.dtype) for k, v in cols.items()})))
+        hdus.append(fits.table_to_hdu(Table(cols)))
+        fits.HDUList(hdus).writeto(path, overwrite=True)
+        return path, ({"hdu": 2} if layout.get("hdu") == 2 else {}), ""
+    if kind == "hdf5":
+        import h5py
+
+        path = tmp / ("input" + (suffix or ".hdf5"))
+        prefix = (layout["group"] + "/") if layout.get("group") else ""
+        with h5py.File(path, "w") as f:
+            for k, v in cols.items():
+                f.create_dataset(prefix + k, data=v)
+        return path, {}, prefix
+    if kind == "parquet":
+        import pyarrow as pa
+        from pyarrow import parquet
+
+        path = tmp / ("input" + (suffix or ".parquet"))
+        parquet.write_table(pa.table(cols), path, row_group_size=row_group_size or max(1, len(cols["ra"])))
+        return path, {}, ""
     raise ValueError(kind)
 
 
